@@ -109,6 +109,8 @@ enum PrintAnswer {
     ResetLate,
     /// any IPP status code
     Status(u16),
+    /// successful answers (to the state query and to the Print-Job) whose Content-Type line is spelled differently
+    ContentType(u8),
 }
 
 const BLOCKING3: [&str; 10] = [
@@ -188,7 +190,7 @@ impl StateAnswer {
 
 impl PrintAnswer {
     fn success(&self) -> bool {
-        matches!(self, PrintAnswer::Ok0000 | PrintAnswer::Ok0001 | PrintAnswer::Status(0..=2))
+        matches!(self, PrintAnswer::Ok0000 | PrintAnswer::Ok0001 | PrintAnswer::Status(0..=2) | PrintAnswer::ContentType(_))
     }
     fn script(&self, id: u32) -> Script {
         let status = match self {
@@ -213,6 +215,7 @@ impl PrintAnswer {
         let body = r1::encode(&m);
         let mut s = Script::ok(body.clone());
         match self {
+            PrintAnswer::ContentType(i) => s.content_type = CONTENT_TYPE_LINES[*i as usize],
             PrintAnswer::Http403 => s.status = 403,
             PrintAnswer::Cut => s.cut_after = Some(body.len() / 2),
             _ => {}
@@ -286,7 +289,10 @@ fn run_util(c: &Case, bin: &std::path::Path, scratch: &std::path::Path, contents
                 }
                 let ex = read_request(&mut s, Instant::now() + Duration::from_secs(30));
                 let op = r1::decode(&ex.body).map(|m| (m.code, m.request_id)).unwrap_or((0xffff, 1));
-                let script = if op.0 == 0x000b { state.script(op.1) } else { print.script(op.1) };
+                let mut script = if op.0 == 0x000b { state.script(op.1) } else { print.script(op.1) };
+                if let PrintAnswer::ContentType(i) = print {
+                    script.content_type = CONTENT_TYPE_LINES[i as usize];
+                }
                 if ex.error.is_none() {
                     let complete = write_response(&mut s, &script);
                     let _ = s.shutdown(if complete { std::net::Shutdown::Write } else { std::net::Shutdown::Both });
@@ -488,6 +494,15 @@ fn judge(c: &Case, o: &Observed, port: u16, contents: &[Vec<u8>]) -> Result<(), 
 /// Print-Job answered with every status code of a sweep: {0, 1, 2} must give exit 0; EVERY code of 0x0100..=0x03ff
 /// (outside the successful class, none of them named by RFC 8011), every named error code, and a few far ones must
 /// give a non-zero exit status. (0x0003..=0x00ff are left out: the statement does not settle them.)
+/// spellings of the Content-Type line a printer may legitimately use
+const CONTENT_TYPE_LINES: [Option<&str>; 5] = [
+    Some("Content-Type: application/IPP"),
+    Some("content-type: Application/Ipp"),
+    Some("Content-Type: application/ipp; charset=utf-8"),
+    Some("Content-Type:application/ipp"),
+    Some("CONTENT-TYPE: application/ipp "),
+];
+
 fn status_sweep_codes() -> Vec<u16> {
     let mut v: Vec<u16> = vec![0, 1, 2];
     v.extend(0x0100..=0x03ffu16);
@@ -550,7 +565,7 @@ pub fn run(ctx: &Ctx) -> ! {
     let mut rep = Report::new(
         ctx,
         "exploration",
-        "the real ipputil binary (built from /repo's working tree) against scripted loopback printers. (A) every list of 0..2 (3) options from {a=true, a=false, n=0, n=-1, n=2147483647, n=2147483648, x=1.5, k=v=w, e=, t=True, page-ranges=1-2,5-6, n=1,2} (duplicate keys included), plus 24 typing witnesses used alone and next to one other option (zero-padded and negative decimals up to 20 digits, the 32-bit limits and their neighbours, -0, 0x10, 1e3, '5 ', non-ASCII digits, 1_000, TRUE, yes, 'true ', 1, 0; the expected type comes from a decimal rule written without the standard integer parser) x -j {absent, job, 'jöb name'} x -u {absent, u}; (B) content {0 B, 1 B, %PDF + every byte value, 8191/8192/8193 B, 1 MiB+1 (8 MiB+1)} x {-f file, stdin} x -H {none, X-A=b}; (C) printer scripts: Get-Printer-Attributes answered {idle/none, processing/informational, stopped, idle + each of the 10 blocking reasons as scalar and inside a set, IPP 0x0503 / 0x0400 / 0x0500, HTTP 500} with the state check on, and Print-Job answered {0x0000, 0x0001, 0x040a, 0x0400, 0x0500, 0x0507, a sweep of 825 status codes (0-2, EVERY code of 0x0100-0x03ff, all named client / server errors, far codes), HTTP 403, connection cut, the Print-Job connection RESET after 64 bytes / after the whole request with every later connection served normally (x every content size x file / stdin)} with the check on (ready printer) and off. Oracle: request sequence seen by the peer (state query first unless -n; nothing submitted to a stopped / blocked / failing printer; exactly one Print-Job with document octets = input, job-name / requesting-user-name as name, options typed by their text, last wins per key, custom header present) and exit status 0 <=> every exchange succeeded with a successful IPP status. distinct = command line x printer script",
+        "the real ipputil binary (built from /repo's working tree) against scripted loopback printers. (A) every list of 0..2 (3) options from {a=true, a=false, n=0, n=-1, n=2147483647, n=2147483648, x=1.5, k=v=w, e=, t=True, page-ranges=1-2,5-6, n=1,2} (duplicate keys included), plus 24 typing witnesses used alone and next to one other option (zero-padded and negative decimals up to 20 digits, the 32-bit limits and their neighbours, -0, 0x10, 1e3, '5 ', non-ASCII digits, 1_000, TRUE, yes, 'true ', 1, 0; the expected type comes from a decimal rule written without the standard integer parser) x -j {absent, job, 'jöb name'} x -u {absent, u}; (B) content {0 B, 1 B, %PDF + every byte value, 8191/8192/8193 B, 1 MiB+1 (8 MiB+1)} x {-f file, stdin} x -H {none, X-A=b}; (C) printer scripts: Get-Printer-Attributes answered {idle/none, processing/informational, stopped, idle + each of the 10 blocking reasons as scalar and inside a set, IPP 0x0503 / 0x0400 / 0x0500, HTTP 500} with the state check on, and Print-Job answered {0x0000, 0x0001, 0x040a, 0x0400, 0x0500, 0x0507, a sweep of 825 status codes (0-2, EVERY code of 0x0100-0x03ff, all named client / server errors, far codes), HTTP 403, connection cut, five other legitimate spellings of the Content-Type line (also on the state answer), the Print-Job connection RESET after 64 bytes / after the whole request with every later connection served normally (x every content size x file / stdin)} with the check on (ready printer) and off. Oracle: request sequence seen by the peer (state query first unless -n; nothing submitted to a stopped / blocked / failing printer; exactly one Print-Job with document octets = input, job-name / requesting-user-name as name, options typed by their text, last wins per key, custom header present) and exit status 0 <=> every exchange succeeded with a successful IPP status. distinct = command line x printer script",
     );
     let bin = ctx.verif_dir.join("target/util/release/ipputil");
     if !bin.exists() {
@@ -625,6 +640,12 @@ pub fn run(ctx: &Ctx) -> ! {
     // every status code of the sweep as the Print-Job answer
     for code in status_sweep_codes() {
         cases.push(Case { print: PrintAnswer::Status(code), ..base.clone() });
+    }
+    // printers that spell the Content-Type line differently (state query answered the same way)
+    for i in 0..CONTENT_TYPE_LINES.len() as u8 {
+        for no_check in [false, true] {
+            cases.push(Case { print: PrintAnswer::ContentType(i), no_check, ..base.clone() });
+        }
     }
     // resets with every content size, from a file and from standard input (a one-shot stream cannot be re-read)
     for p in [PrintAnswer::ResetEarly, PrintAnswer::ResetLate] {
